@@ -92,6 +92,8 @@ class SlotModel:
 
     def f_tolerance(self):
         """Tolerance of a function-backed slot (call after expected_values)."""
+        if self.kind == "X":
+            return 1e-9 * self.comp_mag + self.abs_tol + 1e-300
         tol = 1e-11 * self.comp_mag + 1e-300
         # conditioning of f(t - t0) when |t| is huge compared with the step: an
         # argument error of a few ulp(|t|) is unavoidable
@@ -107,6 +109,12 @@ class SlotModel:
 
     def expected_values(self):
         if self.kind == "S":
+            return self.values
+        if self.kind == "X":
+            # filtered function-backed signal: only its *independence* is modelled
+            # (snapshot of its own values, refreshed when the slot itself is operated on)
+            self.comp_mag = float(np.max(np.abs(self.values))) if len(self.values) else 0.0
+            self.comp_lip = 0.0
             return self.values
         if self.kind == "E":
             return np.zeros(len(self.times))
@@ -134,6 +142,10 @@ class SlotModel:
     def has_opaque(self):
         return self.kind == "F" and any(c.get("opaque") for c in self.comps)
 
+    @property
+    def function_backed(self):
+        return self.kind in ("F", "X")
+
 
 def coerce(ta, tb):
     """Result type of a+b or None if refused."""
@@ -160,7 +172,7 @@ class C04Signals(Machine):
                    "thermal-noise re-gridding is checked under C17, not here",
                    "tolerance 1e-12 relative for sampled slots, 1e-11 for function-backed slots"]
     required_counters = ("fault.add_refused", "fault.mutate_buffer", "fault.mutate_signal",
-                         "op.with_times")
+                         "op.with_times", "probe.filtered_slots")
 
     # ------------------------------------------------------------------
     def draw_config(self, rng):
@@ -173,7 +185,7 @@ class C04Signals(Machine):
             grids.append({"t0": t0, "dt": dt, "n": n})
         w = {k: rng.random() for k in
              ("buf", "construct", "copy", "add", "radd", "scale", "iscale",
-              "shift", "with_times", "mutate_buffer", "mutate_signal", "sum")}
+              "shift", "with_times", "mutate_buffer", "mutate_signal", "sum", "filter")}
         w["construct"] += 1.0
         w["buf"] += 0.5
         return {"n_steps": rng.pick([3, 5, 8, 12, 20, 30, 40]),
@@ -207,8 +219,8 @@ class C04Signals(Machine):
                    ("construct", cfg["weights"]["construct"])]
         if live:
             for k in ("copy", "add", "radd", "scale", "iscale", "shift",
-                      "with_times", "mutate_signal", "sum"):
-                choices.append((k, cfg["weights"][k]))
+                      "with_times", "mutate_signal", "sum", "filter"):
+                choices.append((k, cfg["weights"].get(k, 0.5)))
         if live_b:
             choices.append(("mutate_buffer", cfg["weights"]["mutate_buffer"]))
         kind = rng.weighted(choices)
@@ -296,6 +308,9 @@ class C04Signals(Machine):
                 n = max(1, g["n"] + rng.randint(-2, 3))
                 op["times"] = [g["t0"] + g["dt"] * (i + off) for i in range(n)]
             return op
+        if kind == "filter":
+            return {"op": "filter", "a": rng.pick(live), "fc": float("%.4g" % (rng.uniform(0.03, 0.3) / g["dt"])),
+                    "force_real": rng.chance(0.7)}
         if kind == "mutate_buffer":
             return {"op": "mutate_buffer", "b": rng.pick(live_b),
                     "idx": rng.randrange(64),
@@ -444,6 +459,28 @@ class C04Signals(Machine):
             return ["N", n]
         raise AssertionError(kind)
 
+    def _snapshot(self, sig, ma, vtype=None):
+        """Model of a filtered function-backed signal: a snapshot of its own values."""
+        st, tv = self.sut(lambda: (np.array(sig.times, dtype=float), np.array(sig.values, dtype=float)),
+                          where="read")
+        new = SlotModel("X", tv[0], ma.vtype if vtype is None else vtype, values=tv[1])
+        new.max_span = max(new.max_span, ma.max_span)
+        return new
+
+    def _op_filter(self, op):
+        a, ma = self._need_slot(op["a"])
+        if not ma.function_backed or len(ma.times) < 4:
+            raise Skip("filters are only applied to function-backed signals here (C05 covers sampled ones)")
+        d = np.diff(np.asarray(ma.times, dtype=float))
+        if np.any(d <= 0) or not np.allclose(d, d[0], rtol=1e-6, atol=0):
+            raise Skip("filtering needs a uniform grid")
+        fc = op["fc"]
+        st, _ = self.sut(a.filter_frequencies, lambda f: 1 / (1 + 1j * np.asarray(f) / fc),
+                         force_real=op["force_real"], where="filter_frequencies")
+        self.models[op["a"]] = self._snapshot(a, ma)
+        self.count("probe.filtered_slots")
+        return ["filter"]
+
     def _op_copy(self, op):
         sig, model = self._need_slot(op["src"])
         st, new = self.sut(sig.copy, where="copy")
@@ -458,6 +495,12 @@ class C04Signals(Machine):
         vt = coerce(ma.vtype, mb.vtype)
         if vt is None:
             return ValueError
+        if "X" in (ma.kind, mb.kind):
+            mag = 0.0
+            for m in (ma, mb):
+                ev = np.asarray(m.expected_values(), dtype=float)
+                mag += (float(np.max(np.abs(ev))) if len(ev) else 0.0) + m.abs_tol * 1e9
+            return ("snapshot", vt, max(ma.max_span, mb.max_span), mag)
         if ma.kind == "F" and mb.kind == "F":
             new = SlotModel("F", ma.times, vt, comps=[dict(c) for c in ma.comps] +
                             [dict(c) for c in mb.comps])
@@ -496,8 +539,26 @@ class C04Signals(Machine):
         if st == "raised":
             raise Violation("C04:add-wrongly-refused", "valid addition raised %r" % (res,))
         self.derived_seen = True
+        exp = self._resolve_snapshot(exp, res)
         self._store(op["dst"], res, exp)
         return ["add", ma.kind, mb.kind]
+
+    def _resolve_snapshot(self, exp, res):
+        """Sums involving a filtered operand are accepted as they are and
+        tracked for independence from then on."""
+        if isinstance(exp, tuple) and exp[0] == "snapshot":
+            P = self.pyrex
+            dummy = SlotModel("S", np.array(res.times, dtype=float), exp[1], values=np.zeros(len(res.times)))
+            dummy.max_span = exp[2]
+            if isinstance(res, P.FunctionSignal):
+                new = self._snapshot(res, dummy, exp[1])
+            else:
+                new = SlotModel("S", np.array(res.times, dtype=float), exp[1],
+                                values=np.array(res.values, dtype=float))
+            # cancellation between operands: accuracy is relative to their magnitudes
+            new.abs_tol = 1e-9 * exp[3]
+            return new
+        return exp
 
     def _op_radd(self, op):
         a, ma = self._need_slot(op["a"])
@@ -521,6 +582,13 @@ class C04Signals(Machine):
         for _, m in items[1:]:
             if isinstance(exp, type):
                 break
+            if isinstance(exp, tuple):
+                # a filtered operand earlier in the chain: only refusal rules apply further on
+                probe = SlotModel("X", np.array(items[0][1].times), exp[1],
+                                  values=np.zeros(len(items[0][1].times)))
+                probe.abs_tol = 1e-9 * exp[3]
+                exp = self._add_model(probe, m)
+                continue
             exp = self._add_model(exp, m)
         st, res = self.sut(sum, [s for s, _ in items], expect=(ValueError,), where="sum")
         if isinstance(exp, type):
@@ -535,6 +603,7 @@ class C04Signals(Machine):
                 raise Violation("C04:radd-zero", "sum([s]) did not return s itself")
             return ["sum", "identity"]
         self.derived_seen = True
+        exp = self._resolve_snapshot(exp, res)
         self._store(op["dst"], res, exp)
         return ["sum", len(items)]
 
@@ -555,7 +624,7 @@ class C04Signals(Machine):
         fac = abs(1.0 / k) if how in ("div", "idiv") else abs(k)
         new.tol_scale = ma.tol_scale * fac
         new.abs_tol = ma.abs_tol * fac
-        if new.kind == "S":
+        if new.kind in ("S", "X"):
             new.values = (np.asarray(ma.values) / k) if how in ("div", "idiv") \
                 else (np.asarray(ma.values) * k)
         elif new.kind == "F":
@@ -576,7 +645,7 @@ class C04Signals(Machine):
     def _op_shift(self, op):
         a, ma = self._need_slot(op["a"])
         dt = op["dt"]
-        int_times = np.asarray(ma.times).dtype.kind in "iu"
+        int_times = np.asarray(a.times).dtype.kind in "iu"
         st, res = self.sut(a.shift, dt, expect=(TypeError,), where="shift")
         if int_times and isinstance(dt, float):
             # numpy refuses the in-place cast; either outcome must keep alignment
@@ -589,6 +658,9 @@ class C04Signals(Machine):
         if ma.kind == "F":
             for c in ma.comps:
                 c["t0"] = c["t0"] + dt
+        if ma.kind == "X":
+            # an operation on the slot itself: its snapshot is refreshed
+            self.models[op["a"]] = self._snapshot(a, ma)
         return ["shift"]
 
     def _op_with_times(self, op):
@@ -603,7 +675,9 @@ class C04Signals(Machine):
             raise Skip("empty new_times")
         if ma.has_opaque:
             raise Skip("thermal-noise re-gridding belongs to C17")
-        if ma.kind == "F" and len(tpriv) > 1:
+        if ma.kind == "X" and len(tpriv) < 2:
+            raise Skip("a filtered signal needs a sample step (single-sample filtering is C05 territory)")
+        if ma.function_backed and len(tpriv) > 1:
             d = np.diff(np.asarray(tpriv, dtype=float))
             if np.any(d <= 0):
                 raise Skip("function signals are only re-gridded onto increasing grids")
@@ -623,6 +697,8 @@ class C04Signals(Machine):
             new.tol_scale = max(ma.tol_scale, float(np.max(np.abs(ma.values))) if len(ma.values) else 0.0)
         elif ma.kind == "E":
             new = SlotModel("E", tpriv, ma.vtype)
+        elif ma.kind == "X":
+            new = self._snapshot(res, ma)
         else:
             new = SlotModel("F", tpriv, ma.vtype, comps=[dict(c) for c in ma.comps])
             new.max_span = max(new.max_span, ma.max_span)
@@ -705,7 +781,7 @@ class C04Signals(Machine):
                                  "want": np.asarray(m.times, dtype=float)[:8]})
             exp = np.asarray(m.expected_values(), dtype=float)
             got = np.asarray(values, dtype=float)
-            if m.kind == "F":
+            if m.function_backed:
                 tol = m.f_tolerance()
             else:
                 tol = 1e-12 * max(np.max(np.abs(exp)) if len(exp) else 0.0, m.tol_scale) + m.abs_tol
@@ -715,6 +791,18 @@ class C04Signals(Machine):
                 raise Violation("C04:values-mismatch",
                                 "slot %d (%s) value[%d]=%r, model %r after %s"
                                 % (i, m.kind, k, got[k], exp[k], op["op"]))
+            if m.function_backed and isinstance(sig, P.FunctionSignal):
+                # the definition itself (not only the cached values) must be untouched:
+                # evaluate a fresh copy
+                st, fresh = self.sut(lambda s=sig: np.asarray(s.copy().values, dtype=float), where="copy().values")
+                bad = ~(np.abs(fresh - exp) <= tol) if len(fresh) == len(exp) else np.array([True])
+                if np.any(bad):
+                    k = int(np.argmax(bad))
+                    raise Violation("C04:definition-changed",
+                                    "slot %d (%s): a fresh evaluation of the signal gives value[%d]=%r, it was %r "
+                                    "before %s touched another signal" % (i, m.kind, k, fresh[k] if len(fresh) > k
+                                                                          else None, exp[k] if len(exp) > k else None,
+                                                                          op["op"]))
             if int(vtype.value) != int(m.vtype):
                 raise Violation("C04:type-mismatch",
                                 "slot %d value_type %s, model %d after %s"
